@@ -61,6 +61,13 @@ CHECKS["C04"] = dict(
    note="Trusted: the renderer's offset map. Error codes are not asserted; positions inside added types are not asserted.",
    design="4/C04")
 
+CHECKS["C14"] = dict(
+   category="exploration", engine="B small-scope enumeration of texts x separators x trailing texts",
+   technique="exhaustive product of accepted texts x separators x directive-like trailing texts; every truncation classified by the reference PDA",
+   text="Every accepted text of a corpus built from all rule-free JS-core renderings <= 3 (4) nodes in two layouts, annotated and noted variants ending in every token class, type shortcuts, enum texts and regex tokens, followed by each of 9 separators and 11 trailing texts admitted by the statement: Len must be exactly len(S) for schema, JSON document (trailing characters allowed), enum and regex roles; every lexically incomplete truncation must make Len fail.",
+   note="Trusted: reference PDA for incompleteness. Not generated: trailing text that could continue S; blank-only inputs.",
+   design="4/C14")
+
 NOT_YET = {
 }
 
